@@ -7,7 +7,7 @@ LABEL_KINDS_QUICK = ['none', 'int']
 LABEL_KINDS_ALL = ['none', 'int', 'long', 'dbl', 'chr', 'str', 'pt']
 
 
-def history(rng, cls, lk, maxops=30, force_p=0.0, reject_p=0.04, dd_p=0.0, setlabel=True, sizes=(0, 1, 1, 2, 3, 3, 4, 5)):
+def history(rng, cls, lk, maxops=30, force_p=0.0, reject_p=0.04, dd_p=0.0, setlabel=True, sizes=(0, 1, 1, 2, 3, 3, 4, 5), reject_force_p=0.0, query_p=0.0):
     undirected = cls.startswith('U')
     n = rng.choice(sizes)
     cur = n
@@ -34,14 +34,17 @@ def history(rng, cls, lk, maxops=30, force_p=0.0, reject_p=0.04, dd_p=0.0, setla
             i = rng.randrange(cur); j = rng.choice([i, rng.randrange(cur), rng.randrange(cur)])
         l = rng.randint(0, 3)
         f = 1 if rng.random() < force_p else 0
+        if rng.random() < query_p:
+            ops.append('Q %d' % rng.choice([cur, cur + 1, 4294967295])); continue
         if r < reject_p:
             big = rng.choice([cur, cur + 1, 4294967295])
+            if rng.random() < reject_force_p: f = 1
             k = rng.choice(['A', 'AR', 'R', 'V', 'SLB', 'RZ'])
             if k == 'A': ops.append('A %d %d %d %d' % ((big, j, l, f) if rng.random() < 0.5 else (i, big, l, f)))
             elif k == 'AR' and not undirected: ops.append('AR %d %d %d %d' % ((big, j, l, f) if rng.random() < 0.5 else (i, big, l, f)))
             elif k == 'R': ops.append('R %d %d' % ((big, j) if rng.random() < 0.5 else (i, big)))
             elif k == 'V': ops.append('V %d' % big)
-            elif k == 'SLB' and lk != 'none' and setlabel: ops.append('SLB %d %d %d 0' % ((big, j, l) if rng.random() < 0.5 else (i, big, l)))
+            elif k == 'SLB' and lk != 'none' and setlabel: ops.append('SLB %d %d %d %d' % ((big, j, l, f) if rng.random() < 0.5 else (i, big, l, f)))
             elif cur > 0: ops.append('RZ %d' % (cur - 1))
             continue
         r = rng.random()
@@ -82,11 +85,16 @@ def op_histogram(cases):
 
 
 # ---- case -> Coq term (for the in-kernel cross-check of the extracted model) ----
+def qw(f, op):
+    t = op.split()
+    return 'inr %s%%nat' % t[1] if t[0] == 'Q' else 'inl (%s)' % f(op)
+
 def coq_bool(x): return 'true' if x in ('1', 1, True) else 'false'
 
 def coq_dop(op):
     t = op.split()
     k = t[0]
+    if k == 'Q': return None
     z = lambda s: '(%s)%%Z' % s
     if k == 'A': return 'AddEdge %s %s %s %s' % (t[1], t[2], z(t[3]), coq_bool(t[4]))
     if k == 'AR': return 'AddReciprocal %s %s %s %s' % (t[1], t[2], z(t[3]), coq_bool(t[4]))
@@ -120,14 +128,14 @@ def coq_term_history(case, variant='repaired'):
         return None            # no huge nat numerals inside Coq
     hs = 'false' if lk == 'none' else 'true'
     if cls == 'D':
-        return 'd_trace %s %s %s [%s]' % (hs, variant, n, '; '.join(coq_dop(o) for o in ops))
+        return 'd_trace %s %s %s [%s]' % (hs, variant, n, '; '.join(qw(coq_dop, o) for o in ops))
     if cls == 'U':
-        return 'u_trace_z %s %s %s [%s]' % (hs, variant, n, '; '.join(coq_uop(o) for o in ops))
+        return 'u_trace_z %s %s %s [%s]' % (hs, variant, n, '; '.join(qw(coq_uop, o) for o in ops))
     return None
 
 
 # ---- multigraph / weighted histories ----
-def multi_history(rng, cls, maxops=30, force_p=0.0, reject_p=0.0, dd_p=0.0, sizes=(0, 1, 1, 2, 3, 3, 4, 5)):
+def multi_history(rng, cls, maxops=30, force_p=0.0, reject_p=0.0, dd_p=0.0, sizes=(0, 1, 1, 2, 3, 3, 4, 5), reject_force_p=0.0, query_p=0.0):
     und = cls == 'UM'
     n = rng.choice(sizes); cur = n
     mult = {}
@@ -149,7 +157,10 @@ def multi_history(rng, cls, maxops=30, force_p=0.0, reject_p=0.0, dd_p=0.0, size
         k = rng.choice([0, 1, 1, 2, 3, max(c0 - 1, 0), c0, c0 + 1])        # multiplicity arguments around the current value
         f = 1 if rng.random() < force_p else 0
         r = rng.random()
+        if rng.random() < query_p:
+            ops.append('Q %d' % rng.choice([cur, cur + 1, 4294967295])); continue
         if r < reject_p:
+            if rng.random() < reject_force_p: f = 1
             big = rng.choice([cur, cur + 1, 4294967295]); a, b = ((big, j) if rng.random() < 0.5 else (i, big))
             ops.append(rng.choice(['A %d %d %d' % (a, b, f), 'MA %d %d %d %d' % (a, b, k, f), 'R %d %d' % (a, b), 'MR %d %d %d' % (a, b, k),
                                    'MS %d %d %d' % (a, b, k), 'V %d' % big, 'RZ %d' % max(cur - 1, 0) if cur > 0 else 'V %d' % big]))
@@ -183,7 +194,7 @@ def multi_history(rng, cls, maxops=30, force_p=0.0, reject_p=0.0, dd_p=0.0, size
     return '%s mult %d : %s' % (cls, n, ' ; '.join(ops))
 
 
-def weighted_history(rng, cls, maxops=30, force_p=0.0, reject_p=0.0, dd_p=0.0, sizes=(0, 1, 1, 2, 3, 3, 4, 5)):
+def weighted_history(rng, cls, maxops=30, force_p=0.0, reject_p=0.0, dd_p=0.0, sizes=(0, 1, 1, 2, 3, 3, 4, 5), reject_force_p=0.0, query_p=0.0):
     und = cls == 'UW'
     n = rng.choice(sizes); cur = n
     edges = set()
@@ -204,7 +215,10 @@ def weighted_history(rng, cls, maxops=30, force_p=0.0, reject_p=0.0, dd_p=0.0, s
         w = rng.choice([-9, -4, -1, 0, 0, 1, 2, 3, 4, 6, 10, 20])          # units of 1/4: negative, zero, positive, non-integers
         f = 1 if rng.random() < force_p else 0
         r = rng.random()
+        if rng.random() < query_p:
+            ops.append('Q %d' % rng.choice([cur, cur + 1, 4294967295])); continue
         if r < reject_p:
+            if rng.random() < reject_force_p: f = 1
             big = rng.choice([cur, cur + 1, 4294967295]); a, b = ((big, j) if rng.random() < 0.5 else (i, big))
             ops.append(rng.choice(['WA %d %d %d %d' % (a, b, w, f), 'R %d %d' % (a, b), 'WS %d %d %d' % (a, b, w), 'V %d' % big, 'RZ %d' % max(cur - 1, 0) if cur > 0 else 'V %d' % big]))
             continue
@@ -244,8 +258,8 @@ def coq_term_mw(case):
     cls, lk, n = head.split()
     ops = [o.strip() for o in body.split(';') if o.strip()]
     if any(tok.isdigit() and int(tok) > 5000 for o in ops for tok in o.split()): return None
-    if cls == 'DM': return 'dm_trace_z repaired %s [%s]' % (n, '; '.join(coq_mop(o) for o in ops))
-    if cls == 'UM': return 'um_trace_z repaired true %s [%s]' % (n, '; '.join(coq_mop(o) for o in ops))
-    if cls == 'DW': return 'dw_trace_z repaired %s [%s]' % (n, '; '.join(coq_wop(o) for o in ops))
-    if cls == 'UW': return 'uw_trace_z repaired true %s [%s]' % (n, '; '.join(coq_wop(o) for o in ops))
+    if cls == 'DM': return 'dm_trace_z repaired %s [%s]' % (n, '; '.join(qw(coq_mop, o) for o in ops))
+    if cls == 'UM': return 'um_trace_z repaired true %s [%s]' % (n, '; '.join(qw(coq_mop, o) for o in ops))
+    if cls == 'DW': return 'dw_trace_z repaired %s [%s]' % (n, '; '.join(qw(coq_wop, o) for o in ops))
+    if cls == 'UW': return 'uw_trace_z repaired true %s [%s]' % (n, '; '.join(qw(coq_wop, o) for o in ops))
     return None
